@@ -223,6 +223,26 @@ CHECKS = {
 
 NOT_YET = "check not built"
 
+M9 = (" Additionally the repository's own test-suite is run as a workload with the API functions wrapped by recording monitors "
+      "(M9, vf/mon/pytest_plugin.py: quick = ten test modules, thorough = whole suite): ")
+# sentences appended to the level text (workloads added during the build)
+ADDENDA = {
+    "C07": M9 + "every object returned by load_one / load_many has consistent shapes and the file is closed afterwards.",
+    "C08": M9 + "a FileFormatError / PrepareDumpError from dump_one leaves the target path byte-identical.",
+    "C09": M9 + "deep snapshot of every object passed to dump_one / dump_many / write_input before vs after the call.",
+    "C11": M9 + "every loaded object satisfies charge = sum(core charges) - nelec.",
+    "C17": " Guaranteed lists are also checked against generated files of every model class of the specification-following writers." + M9
+           + "every loaded object carries its module's guaranteed attributes.",
+    "C16": " (d) per format, every generated file of every model class of the specification-following writers is loaded - and per dump "
+           "format generated objects of every class are dumped - in shuffled orders with repetitions in one interpreter and compared "
+           "with fresh-interpreter baselines (state kept in closures / caches, invisible to the table snapshots, shows there).",
+    "C18": " Numerically pathological inputs (1e308, nan, inf in one frame) drive the CLI's floating-point trap: the admitted "
+           "'CLI error where the API succeeds' branch is observed and counted.",
+    "C15": " Floats are compared at bit level including the sign of zero; generated geometries contain noise around zero and signed "
+           "zeros; QCSchema objects include user-built ones with None-only / empty nested dictionaries.",
+    "C02": " A third of the generated objects carry equal arrays in Fortran order / strided / reversed views.",
+}
+
 
 def build():
     props = [json.loads(line)["id"] for line in open(os.path.join(ROOT, "properties.jsonl"))]
@@ -239,7 +259,7 @@ def build():
                 "evidence_file": f"evidence/{pid}.json",
                 "replay_cmd_template": f"./check {pid} --replay {{path}}",
                 "engine": "vf",
-                "level_claimed": {"category": level, "text": text, "design_ref": f"DESIGN.md section {ref}"},
+                "level_claimed": {"category": level, "text": text + ADDENDA.get(pid, ""), "design_ref": f"DESIGN.md section {ref}"},
                 "level_note": COMMON_NOTE,
                 "technique": technique,
             }
